@@ -1768,14 +1768,12 @@ impl Planner {
                 LogicalAggregateFunction::Count | LogicalAggregateFunction::CountNonNull => {
                     LogicalType::Int64
                 }
-                LogicalAggregateFunction::Sum => LogicalType::Int64,
+                // SUM is an integer or a float depending on its input, and MIN/MAX return
+                // a value of the input's type (number, string, ...): an Int64 column would
+                // turn every non-integer result into 0.
+                LogicalAggregateFunction::Sum => LogicalType::Any,
                 LogicalAggregateFunction::Avg => LogicalType::Float64,
-                LogicalAggregateFunction::Min | LogicalAggregateFunction::Max => {
-                    // MIN/MAX preserve input type; use Int64 as default for numeric comparisons
-                    // since the aggregate can return any Value type, but the most common case
-                    // is numeric values from property expressions
-                    LogicalType::Int64
-                }
+                LogicalAggregateFunction::Min | LogicalAggregateFunction::Max => LogicalType::Any,
                 LogicalAggregateFunction::Collect => LogicalType::Any, // List type (using Any since List is a complex type)
                 // Statistical functions return Float64
                 LogicalAggregateFunction::StdDev
